@@ -411,6 +411,68 @@ def check_main(prop, tier, replay=None):
     return rcode
 
 
+def digests_main(spec):
+    """Internal: print one JSON line with the digest of every requested run (selftest determinism)."""
+    bootstrap()
+    out = []
+    idx = spec["indices"][::-1] if spec.get("reverse") else spec["indices"]
+    for i in idx:
+        res = run_seed(spec["prop"], spec["group"], i, spec["base_seed"])
+        out.append((i, res["digest"], res.get("end"), len(res["trace"])))
+    print(json.dumps(sorted(out)))
+
+
+def selftest_determinism(n, only=None):
+    """Every (property, group): n seeds, each run in two fresh interpreters (the second one in reverse order, so that
+    whatever state leaks between runs in one process would show), same PYTHONHASHSEED; digests must be identical."""
+    import props
+    jobs = []
+    seen = set()
+    for prop, cfg in sorted(props.PROPS.items()):
+        if only and prop not in only:
+            continue
+        for g in cfg["groups"]:
+            key = (g["harness"], json.dumps(g.get("opts"), sort_keys=True))
+            if key in seen:
+                continue
+            seen.add(key)
+            for hs in range(NHASH):
+                idx = [i for i in range(n * NHASH) if i % NHASH == hs]
+                jobs.append((prop, g, hs, idx))
+    bad = 0
+    total = 0
+    procs = []
+    for prop, g, hs, idx in jobs:
+        for rev in (False, True):
+            spec = dict(prop=prop, group=g, base_seed=int(os.environ.get("VERIF_SEED", "0")), indices=idx, reverse=rev)
+            env = dict(os.environ, PYTHONHASHSEED=str(hs))
+            procs.append((prop, g["name"], hs, rev, subprocess.Popen([PY, os.path.abspath(__file__), "digests", json.dumps(spec)], stdout=subprocess.PIPE,
+                                                                   stderr=subprocess.PIPE, env=env, text=True)))
+            while sum(1 for p in procs if p[4].poll() is None) >= (os.cpu_count() or 4):
+                time.sleep(0.05)
+    results = {}
+    for prop, gname, hs, rev, p in procs:
+        so, se = p.communicate(timeout=1800)
+        if p.returncode != 0:
+            print(f"HARNESS-ERROR selftest worker failed {prop}/{gname}: {se[-800:]}")
+            bad += 1
+            continue
+        results[(prop, gname, hs, rev)] = json.loads(so.strip().split("\n")[-1])
+    for (prop, gname, hs, rev), a in sorted(results.items()):
+        if rev:
+            continue
+        b = results.get((prop, gname, hs, True))
+        if b is None:
+            continue
+        total += len(a)
+        diff = [(x, y) for x, y in zip(a, b) if x != y]
+        if diff:
+            bad += len(diff)
+            print(f"NONDETERMINISM {prop}/{gname} hashseed={hs}: {diff[:3]}")
+    print(f"selftest determinism: {total} runs compared pairwise in fresh interpreters, {bad} mismatches")
+    return 0 if bad == 0 else 2
+
+
 def main():
     cmd = sys.argv[1]
     if cmd == "worker":
@@ -419,6 +481,11 @@ def main():
         one_main()
     elif cmd == "shrink":
         shrink_main()
+    elif cmd == "digests":
+        digests_main(json.loads(sys.argv[2]))
+    elif cmd == "selftest":
+        n = int(sys.argv[2]) if len(sys.argv) > 2 else 5
+        sys.exit(selftest_determinism(n, set(sys.argv[3:]) or None))
     elif cmd == "dev":
         # dev <prop> <group-name> <i0> [n] : run seeds in-process, print verdicts (debugging aid)
         import props
